@@ -398,6 +398,15 @@ func (p *Program) runCallsAudit(ar *auditRef, all map[*ssa.Function]bool) (obls 
 								continue
 							}
 						}
+						if kc, ok := arg.(*ssa.Const); ok && kc.Value != nil && kc.Value.Kind() == constant.Bool {
+							bs := "false"
+							if constant.BoolVal(kc.Value) {
+								bs = "true"
+							}
+							env.vars[name] = Val{T: kc.Type(), S: bs}
+							shown = append(shown, bs)
+							continue
+						}
 						srt := c.sortOf(arg.Type())
 						if strings.Contains(srt, "?") {
 							shown = append(shown, "_")
